@@ -204,6 +204,102 @@ def rule_hmac(ctx):
     ctx.check("C20.hmac", okr and len(rets) == 1, w, "return " + (unparse(rets[0].value) if rets else "?"), "the token must be base64 of the outer digest", "base64(outer digest)")
 
 
+def rule_hmac_exec(ctx):
+    """getToken(phone), abstractly executed on the byte-string algebra (sa/bytealg): whatever way the keyed hash is written
+    - pads built by hand and two SHA-1 objects, or hmac.new - the token must be
+        base64( SHA1( (K ^ 0x5c..) || SHA1( (K ^ 0x36..) || signature || class digest || phone ) ) ),   K = first 64 bytes of the key
+    with K, signature and class digest the class's own constants.  -> True when decided clean"""
+    import base64 as _b64
+    from ..absint import Interp, _Raise, NeedAtom, Budget, DomainGrew, enumerate_cells, show
+    from ..bytealg import BytesAlg
+    repo = ctx.repo
+    cls = repo.cls(ENV, "AndroidYowsupEnv")
+    fn = repo.method(ENV, "AndroidYowsupEnv", "getToken")
+    w = where(ENV, "AndroidYowsupEnv.getToken", fn.lineno)
+    ev = Evaluator(repo, cls.module, cls, class_scope=cls)
+    consts = {}
+    for name in ("_KEY", "_SIGNATURE", "_MD5_CLASSES"):
+        k, e = repo.class_const(cls, name)
+        a = alts(ev.ev(e)) if e is not None else None
+        if not a or len(a) != 1 or not isinstance(a[0], (str, bytes)):
+            ctx.undecided("C20.hmac", w, name, "class constant %s is not a constant string" % name)
+            return None
+        try:
+            consts[name] = _b64.b64decode(a[0])
+        except Exception as x:
+            ctx.violate("C20.hmac", w, name, "class constant %s is not valid base64 (%s)" % (name, x))
+            return False
+
+    def run(cell, domains):
+        alg = BytesAlg()
+        it = Interp(repo, cell, domains, hooks=alg.hooks())
+        it.max_steps = 200000
+        o = it.construct(cls, [], {}, {"@module": cls.module, "@owner": None}, 0, None)
+        kb = consts["_KEY"][:64]
+        kb = kb + b"\x00" * (64 - len(kb))
+        out = {"raised": None, "same": True, "got": "", "notes": alg.notes}
+        # a history: three tokens in a row - two numbers on one object, then the first again on a second object of the class
+        o2 = it.construct(cls, [], {}, {"@module": cls.module, "@owner": None}, 0, None)
+        for i, (obj, pname, plen) in enumerate(((o, "PHONE1", 11), (o, "PHONE2", 12), (o2, "PHONE1", 11))):
+            phone = alg.content(it, (pname,), plen)
+            try:
+                r = it.call_function(fn, cls, obj, [phone], {}, depth=0)
+            except _Raise as x:
+                out["raised"] = "%s (call %d)" % (x.text, i + 1)
+                return out, it
+            msg = alg.normalise([("const", consts["_SIGNATURE"] + consts["_MD5_CLASSES"]), ("sym", (pname,), 0, plen)])
+            inner = ("HASH", "sha1", tuple(alg.normalise([("const", bytes(b ^ 0x36 for b in kb))] + msg)))
+            outer = ("HASH", "sha1", tuple(alg.normalise([("const", bytes(b ^ 0x5C for b in kb)), ("sym", inner, 0, 20)])))
+            want = [("sym", ("B64", (("sym", outer, 0, 20),)), 0, 28)]
+            got = alg.atoms_of(r)
+            if got is None or alg.normalise(got) != want:
+                out["same"] = False
+                out["got"] = "%s on call %d (%s)" % (describe_token(alg, got) if got is not None else show(r)[:60], i + 1, "the first call" if i == 0 else "after %d earlier call(s): state is carried over from one token to the next" % i)
+                break
+        return out, it
+    try:
+        cells = enumerate_cells(run, {}, max_cells=32)
+    except (Budget, NeedAtom, DomainGrew) as x:
+        ctx.undecided("C20.hmac", w, "token construction", "getToken could not be executed: %s" % (x,))
+        return None
+    notes = sorted({n for _c, r in cells for n in r["notes"]})
+    if notes:
+        ctx.undecided("C20.hmac", w, "token construction", "operations outside the byte-string model: %s" % "; ".join(notes[:2]))
+        return None
+    bad = []
+    for cell, r in cells:
+        if r["raised"]:
+            bad.append("getToken raises %s" % r["raised"][:60])
+        elif not r["same"]:
+            bad.append("the token is %s" % r["got"])
+    for label in ("key: the first 64 bytes of the class's key constant, XOR 0x5c outside / 0x36 inside", "MAC covers signature || class digest || phone number, in that order",
+                  "SHA-1 inside and outside", "token = base64 of the 20-byte digest", "three tokens in a row (two numbers on one object, one on another object) each equal their own reference", "no path raises (%d path class(es))" % len(cells)):
+        ctx.check("C20.hmac", not bad, w, label, "; ".join(sorted(set(bad))[:2]) + " - the registration token must be base64(SHA1((K^opad) || SHA1((K^ipad) || signature || classes || phone)))", "as the format requires")
+    return not bad
+
+
+def describe_token(alg, atoms):
+    def d(atoms):
+        out = []
+        for a in atoms:
+            if a[0] == "const":
+                out.append("%d const byte(s)" % len(a[1]))
+            elif a[0] == "sym":
+                nm = a[1]
+                if isinstance(nm, tuple) and nm[0] == "HASH":
+                    out.append("%s(%s)[%s:%s]" % (nm[1], d(nm[2]), a[2], a[2] + a[3] if a[3] is not None else "?"))
+                elif isinstance(nm, tuple) and nm[0] in ("B64", "HEX"):
+                    out.append("%s(%s)" % (nm[0].lower(), d(nm[1])))
+                elif isinstance(nm, tuple) and nm[0] == "MAC":
+                    out.append("hmac-%s(key %s, %s)" % (nm[2], d(nm[1]), d(nm[3])))
+                else:
+                    out.append("%s[%s:%s]" % (nm[0] if isinstance(nm, tuple) else nm, a[2], a[2] + a[3] if a[3] is not None else "?"))
+            else:
+                out.append(a[0])
+        return " || ".join(out) or "nothing"
+    return d(alg.normalise(atoms))[:300]
+
+
 def rule_env(ctx):
     repo = ctx.repo
     cls = repo.cls(REQ, "WARequest")
@@ -369,6 +465,8 @@ def run(ctx):
     ctx.rule("C20.env", "envelope provenance in encryptParams", floor=6)
     ctx.rule("C20.order", "parameter order and percent-encoding table (finite-domain evaluation of urlencode / urlencodeParams)", floor=6)
     ctx.assume("SHA-1, base64, X25519 agreement and AES-GCM primitives are trusted; equality with independent computations is not decided")
-    ctx.guarded("C20.hmac", rule_hmac, ctx)
+    decided = ctx.guarded("C20.hmac", rule_hmac_exec, ctx)
+    if decided is None:
+        ctx.guarded("C20.hmac", rule_hmac, ctx)          # the execution was not possible: the structural reading decides
     ctx.guarded("C20.env", rule_env, ctx)
     ctx.guarded("C20.order", rule_order, ctx)
